@@ -207,7 +207,7 @@ class FsScenario(Scenario):
             res["replay"] = run.oracle_replay(tree0) if run.backend == "inotify" and not case.get("unpaced") else None
             real = run.scan("root")
             res["real"] = real
-            mt = {p: k for p, (k, _) in run.model.t.items() if fm.is_under(p, "root") and p != "root"}
+            mt = {p: ("d" if k == "d" else "f") for p, (k, _) in run.model.t.items() if fm.is_under(p, "root") and p != "root"}
             if real is not None and mt != real:
                 raise AssertionError(f"model tree != real tree: {sorted(set(mt.items()) ^ set(real.items()))[:6]}")
             self.after_ops(run, res, sim)
@@ -486,6 +486,7 @@ C14_SHAPES = [
     [["a", "d"], ["a/root", "d"], ["a/root/a", "d"], ["b", "f"]],
     [["root", "d"], ["root/b", "d"], ["root/b/root", "d"], ["root/b/root/b", "f"]],
     [["a", "f"]],
+    [["a", "d"], ["a/b", "s"], ["root", "s"]],
 ]
 
 
@@ -505,7 +506,7 @@ class C14(FsScenario):
     full_share = 0.1
     nonrec_share = 0.0
     max_ops = 9
-    weights = {"mkfile": 3, "mkdir": 3, "makedirs": 3, "rename": 6, "movein_tree": 2, "moveout": 1, "unlink": 1}
+    weights = {"mkfile": 3, "mkdir": 3, "makedirs": 3, "rename": 6, "movein_tree": 2, "moveout": 1, "unlink": 1, "mkspecial": 2}
 
     def gen_watch(self, cfg):
         w = super().gen_watch(cfg)
@@ -522,7 +523,7 @@ class C14(FsScenario):
             names = random.Random(f"{seed}:names").choice([("root", "a", "b"), ("root", "a", "b"), ("root", "a", "ab"), ("a", "ab", "abc")])
             # deeper pre-existing trees so that renames have colliding descendants
             m = fm.Model()
-            pre = fm.gen_ops(random.Random(f"{seed}:pre"), m, rng.randrange(2, 8), names=names, max_depth=4, paced=False, allow={"mkdir", "mkfile", "makedirs"})
+            pre = fm.gen_ops(random.Random(f"{seed}:pre"), m, rng.randrange(2, 8), names=names, max_depth=4, paced=False, allow={"mkdir", "mkfile", "makedirs", "mkspecial"})
             m.drain()
             case["pre"] = pre
             w = dict(self.weights)
